@@ -14,6 +14,7 @@ from pathlib import Path
 from ruamel.yaml.comments import (
     CommentedMap, CommentedSet, CommentedSeq, TaggedScalar
 )
+from ruamel.yaml.scalarbool import ScalarBoolean
 
 from yamlpath.common import Anchors, Nodes, Parsers
 from yamlpath.wrappers import ConsolePrinter, NodeCoords
@@ -531,6 +532,25 @@ class Merger:
             aid += 1
         return anchor
 
+    @staticmethod
+    def _scalar_kind(node: Any) -> type:
+        """
+        Identify the YAML data type of a node, ignoring its presentation.
+
+        Parameters:
+        1. node (Any) The node to evaluate.
+
+        Returns:  (type) bool, int, float, or str for Scalar nodes of these
+            types (however they are quoted, anchored or formatted); the
+            node's own class otherwise.
+        """
+        if isinstance(node, (bool, ScalarBoolean)):
+            return bool
+        for kind in (int, float, str):
+            if isinstance(node, kind):
+                return kind
+        return type(node)
+
     def _resolve_anchor_conflicts(self, rhs: Any) -> None:
         """
         Resolve anchor conflicts between this and another document.
@@ -584,7 +604,12 @@ class Merger:
                     (lhs_anchor.value == rhs_anchor.value)
                     and (lhs_anchor.tag.value == rhs_anchor.tag.value))
             else:
-                anchors_match = lhs_anchor == rhs_anchor
+                # Python holds True == 1 == 1.0 but these are three different
+                # YAML values; anchors holding them do conflict.
+                anchors_match = (
+                    lhs_anchor == rhs_anchor
+                    and Merger._scalar_kind(lhs_anchor)
+                        is Merger._scalar_kind(rhs_anchor))
 
             if not anchors_match:
                 if conflict_mode is AnchorConflictResolutions.RENAME:
